@@ -141,6 +141,10 @@ func unmarshal(c *boc.Cell, ptr any) (st string, msg string) {
 	return status(err, p), msg
 }
 
+// PerturbRng, when set, makes RoundTrip move the read cursors of bit strings inside the decoded value before it is
+// encoded again.
+var PerturbRng *rand.Rand
+
 // RoundTrip performs encode / decode / encode of one value and returns the RT event.
 func RoundTrip(name string, t reflect.Type, v reflect.Value) ev.M {
 	a := tlbx.AST(t, "")
@@ -178,6 +182,10 @@ func RoundTrip(name string, t reflect.Type, v reflect.Value) ev.M {
 		}
 	}
 	again := p.Elem()
+	if PerturbRng != nil {
+		// the decoded value "has been looked at": read cursors of its bit strings moved
+		tlbx.Perturb(again, PerturbRng, 0)
+	}
 	if m["rev"] == true {
 		// re-encode in the order the encoder expects (the documented convention: Marshal takes the list top-first,
 		// Unmarshal returns it bottom-first)
@@ -201,6 +209,7 @@ func RoundTrip(name string, t reflect.Type, v reflect.Value) ev.M {
 func Drive(w *ev.Writer, o Opts) {
 	rng := rand.New(rand.NewSource(o.Seed*48271 + int64(o.Shard)))
 	g := &tlbx.Gen{Rng: rng}
+	PerturbRng = rand.New(rand.NewSource(o.Seed + 5))
 	per := 12
 	if o.Tier == "thorough" {
 		per = 200
